@@ -224,7 +224,7 @@ func RunConc(t TB, p *Program) *concResult {
 		inter := false
 		for w := 0; w < nW; w++ {
 			m := int64(0)
-			if mv, ok := tree.KV[string(markerKey(w))]; ok {
+			if mv, ok := findKey(tree, string(markerKey(w))); ok {
 				v, perr := strconv.ParseInt(string(mv), 10, 64)
 				if perr != nil {
 					failf("%s: marker of writer %d is %q", who, w, mv)
@@ -317,6 +317,9 @@ func RunConc(t TB, p *Program) *concResult {
 					return
 				}
 				for w := 0; w < nW; w++ {
+					if len(x.Writers[w]) > 0 && len(x.Writers[w][0].Ops) == 0 {
+						continue // this writer keeps its marker in a child collection; Collection.Get reads the top level
+					}
 					floor := atomic.LoadInt64(&done[w])
 					var v []byte
 					var err error
@@ -639,4 +642,18 @@ func batchesHaveChildren(bs []*Batch) bool {
 		}
 	}
 	return false
+}
+
+// findKey looks a key up at any nesting level (a writer that only writes
+// into child collections keeps its marker there).
+func findKey(n *Node, k string) ([]byte, bool) {
+	if v, ok := n.KV[k]; ok {
+		return v, true
+	}
+	for _, c := range n.Children {
+		if v, ok := findKey(c, k); ok {
+			return v, true
+		}
+	}
+	return nil, false
 }
